@@ -2,6 +2,7 @@ import NixModel.Pure.Upgrade
 import NixModel.Lemmas.C18Resume
 import NixModel.Lemmas.C18Content
 import NixModel.Lemmas.C18Repeat
+import NixModel.Lemmas.C18History
 
 /-!
 # C18 — format upgrade preserves content, is idempotent and resumable
@@ -57,6 +58,27 @@ theorem C18_resumable (lib : List Nat) (r1 r2 r3 k : Nat) (f : File) (hwf : WF f
     (upgrade lib r2 (interrupt lib r1 k f).1).1.erase = (upgrade lib r3 f).1.erase ∧
     (upgrade lib r2 (interrupt lib r1 k f).1).2 = (upgrade lib r3 f).2 :=
   resume_erase k hwf hok
+
+/-- Any number of interruptions: after a history of invocations `r, r+1, …` each interrupted before its
+`kᵢ`-th step (none hitting a failing step), the next uninterrupted upgrade gives the same file and
+outcome as an uninterrupted upgrade of the original file, up to fresh ids and timestamps. -/
+theorem C18_resumable_history (lib : List Nat) (r r2 r3 : Nat) (ks : List Nat) (f g : File) (hwf : WF f)
+    (hh : runHistory lib r f ks = (g, none)) :
+    (upgrade lib r2 g).1.erase = (upgrade lib r3 f).1.erase ∧ (upgrade lib r2 g).2 = (upgrade lib r3 f).2 :=
+  history_resume ks r hwf hh
+
+/-- For a file in which no `<name>.<extra>` name is taken, no step can fail: every interruption
+point is reached, the re-run succeeds and agrees with the uninterrupted run. -/
+theorem C18_resumable_clean (lib : List Nat) (r1 r2 r3 k : Nat) (f : File) (hwf : WF f) (hclean : Clean f) :
+    (interrupt lib r1 k f).2 = none ∧
+    (upgrade lib r2 (interrupt lib r1 k f).1).2 = none ∧
+    (upgrade lib r2 (interrupt lib r1 k f).1).1.erase = (upgrade lib r3 f).1.erase := by
+  have hok : ∀ r, (upgrade lib r f).2 = none := fun r =>
+    (run_induction (lib := lib) (r := r) (ContentInv r f) (content_step hclean) _ f rfl hwf
+      ⟨Inv.refl r f.props, rfl, rfl⟩).1
+  have hk := prefix_ok k (hok r1)
+  obtain ⟨h1, h2⟩ := resume_erase (lib := lib) (r1 := r1) (r2 := r2) (r3 := r3) k hwf hk
+  exact ⟨hk, h2.trans (hok r3), h1⟩
 
 /-- What the interrupted run leaves to do is exactly the rest of the original step list. -/
 theorem C18_resumable_steps (lib : List Nat) (r k : Nat) (f : File) (hwf : WF f)
